@@ -1,6 +1,6 @@
 (** C09 -- sizes, change-rate order and unit values are recovered from any regular grid. *)
-From Coq Require Import List Arith Lia Bool Permutation.
-Require Import V.Base.ListAux V.Base.Radix V.Base.Matrix V.Base.NdArray V.Usid.SortOrder V.Usid.ToND V.Usid.ToNDProof V.Usid.Grid.
+From Coq Require Import List Arith Lia Bool Permutation Sorted.
+Require Import V.Base.ListAux V.Base.Radix V.Base.Matrix V.Base.NdArray V.Usid.SortOrder V.Usid.ToND V.Usid.ToNDProof V.Usid.Grid V.Usid.UnitValues V.Usid.UnitValuesGrid.
 Import ListNotations.
 
 (** For a regular grid with sizes [sz] (file order) stored in ANY rate order [order] (any permutation, any number of
@@ -60,3 +60,24 @@ Example C09_example :
   get_sort_order (grid_spec [2;1;3;2] [2;0;3;1]) = [2;0;3;1] /\
   get_dimensionality (grid_spec [2;1;3;2] [2;0;3;1]) [2;0;3;1] = [3;2;2;1].
 Proof. vm_compute. split; reflexivity. Qed.
+
+(** Unit values.  For a regular grid with ANY number of dimensions, sizes >= 1, in ANY storage order, with ANY value function
+    per dimension (values need not be distinct or monotone): get_unit_values (orientation given) returns for dimension d
+    (file order) exactly the values f d 0, ..., f d (size_d - 1) -- one per index, in index order. *)
+Theorem C09_unit_values_exact :
+  forall (V : Type) (dv : V) (f : nat -> nat -> V) (sz so : list nat), wf_grid sz so ->
+  let k := length sz in
+  let vals := map (fun d => map (f d) (grid_row sz so d)) (seq 0 k) in
+  get_unit_values dv (grid_spec sz so) vals (Some true) k = Ok (map (fun d => map (f d) (seq 0 (nth d sz 1))) (seq 0 k)).
+Proof. exact @unit_values_grid. Qed.
+Print Assumptions C09_unit_values_exact.
+
+(** The algorithm on one row, for ANY row of the tile / repeat form (strictly increasing index values c, each repeated st
+    times, the block tiled t times) -- this covers rows of sliced grids, whose indices do not start at 0 or are not
+    contiguous: the result is the value found at the first occurrence of each index. *)
+Theorem C09_unit_values_of_a_tiled_row :
+  forall (c : list nat) (st t : nat), StronglySorted lt c -> 0 < length c -> 0 < st -> 0 < t ->
+  forall (V : Type) (dv : V) (vals : list V),
+  unit_values_row dv (tile (repeat_each c st) t) vals = Some (map (fun i => nth (i * st) vals dv) (seq 0 (length c))).
+Proof. intros c st t H1 H2 H3 H4 V dv vals. exact (unit_values_row_grid c st t H1 H2 H3 H4 dv vals). Qed.
+Print Assumptions C09_unit_values_of_a_tiled_row.
